@@ -51,7 +51,7 @@ def strategy(tier):
                                                            "sb2": so.stream_st(True, max_len=5)}))})
     cms = st.fixed_dictionaries({
         "t": st.just("cms"), "w": st.one_of(st.integers(1, 3), st.integers(1, 8)), "d": st.integers(1, 5),
-        "hash": gen.hash_name_st(), "pool": gen.pool_st(2, 10), "qt": st.sampled_from(["min", "mean", "mean-min"]), "raw": st.booleans(),
+        "hash": gen.hash_name_st(), "pool": gen.pool_st(2, 10), "qt": st.sampled_from(["min", "mean", "mean-min"]), "raw": st.booleans(), "balance": st.booleans(),
         "sa": so.stream_st(True), "sb": so.stream_st(True), "sx": so.stream_st(True, max_len=4), "chain": st.sampled_from([0, 0, 1, 2])})
     return st.one_of(bloom, cb, cms)
 
@@ -158,6 +158,11 @@ def run_case(case, ctx):
                 ra = [[k % len(pool), n] for k, n in case["sa"]]
                 rb = [[k % len(pool), n] for k, n in case["sb"]]
                 rx = [[k % len(pool), n] for k, n in case.get("sx", [])]
+                if case.get("balance") and rb:
+                    # make the argument's NET total exactly zero while its bins are not (the balancing amount goes to another key)
+                    net = sum(n for _, n in rb)
+                    if net:
+                        rb.append([(rb[-1][0] + 1) % len(pool), -net])
                 ctx.feat("cms_raw_removals")
             A, B, S = (so.make_cms(case["w"], case["d"], case["hash"]) for _ in range(3))
             qt = case["qt"] if case["w"] >= 2 else "min"  # mean-min divides by (width - 1): width 1 is outside its domain
